@@ -158,6 +158,7 @@ void do_op2(const Pool &P, Priv &V, const BOp &op, Hash &h) {
         break; }
     case 66: {      // replace_overloads (substitute mode: a needle cut inside a character cannot make the result throw)
         const ST::utf_validation_t sv = ST::substitute_invalid;
+        const ST::string &t = (s.size() > 200 && P.strs[op.b % P.strs.size()].size() > 200) ? P.strs[1] : P.strs[op.b % P.strs.size()];      // (long x long would be quadratic)
         hs(h, s.replace(n, "<r>", cs, sv)); hs(h, s.replace(n.c_str(), t, cs, sv)); hs(h, s.replace(n, t, cs, sv)); hs(h, s.replace(n.c_str(), "--", cs, sv));
         hs(h, s.replace(u8p(n), u8p("<8>"), cs, sv)); hs(h, s.replace(n, u8p("<8>"), cs, sv)); hs(h, s.replace(u8p(n), t, cs, sv));
         hs(h, s.replace(" ", "", cs)); hs(h, s.replace("e", "EE"));
